@@ -160,6 +160,21 @@ Theorem whole_value_string : forall def retrieve n ret v o,
 Proof. exact resolve_whole_string. Qed.
 Print Assumptions whole_value_string.
 
+(* when the recursion stops, the ORIGINAL TEXT kept beside a typed value has itself no expandable reference
+   left (a string target receives fully expanded text): the result of expand_rec is the output of a round
+   that reported "unchanged", and such a round on an expandedValue leaves its text as it was *)
+Theorem expand_rec_stops_on_unchanged_round : forall def retrieve f v v',
+  expand_rec def retrieve f v = Ok v' -> exists vk, expand_value def retrieve vk = Ok (v', false).
+Proof. exact expand_rec_last_round. Qed.
+Print Assumptions expand_rec_stops_on_unchanged_round.
+
+Theorem original_text_fully_expanded : forall def retrieve x o x' o',
+  structured x = true ->
+  expand_value def retrieve (CExp x o) = Ok (CExp x' o', false) ->
+  o' = o /\ expand_string def retrieve o = Ok (CStr o, false) /\ expand_value def retrieve x = Ok (x', false).
+Proof. exact original_settled. Qed.
+Print Assumptions original_text_fully_expanded.
+
 (* inside a longer string the provider's TEXT is spliced in (every unescaped occurrence), and the
    result is expanded again by the same function: provider output is subject to the same rules *)
 Theorem embedded_uses_text : forall def retrieve s uri ret repl,
